@@ -6,7 +6,7 @@ use serde_json::{json, Value};
 use crate::model::XRule;
 use crate::run::{Scn, Sched};
 
-pub fn replay_file(path : &str, tag : &str, serial_ref : bool) -> (Vec<Value>, usize, usize)
+pub fn replay_file(path : &str, tag : &str, serial_ref : bool, crash_last : bool) -> (Vec<Value>, usize, usize, usize)
 {
     let text = std::fs::read_to_string(path).expect("read behaviours");
     let mut lines = text.lines();
@@ -16,7 +16,7 @@ pub fn replay_file(path : &str, tag : &str, serial_ref : bool) -> (Vec<Value>, u
     let init : Vec<(String, String)> = head["init"].as_array().unwrap().iter().map(|p| (p[0].as_str().unwrap().to_string(), p[1].as_str().unwrap().to_string())).collect();
     let tick = head["clock"].as_str() == Some("tick");
     let mut out = vec![];
-    let mut n = 0; let mut notenabled = 0;
+    let mut n = 0; let mut notenabled = 0; let mut nsnaps = 0;
     for line in lines
     {
         if line.trim() == "" { continue; }
@@ -27,6 +27,7 @@ pub fn replay_file(path : &str, tag : &str, serial_ref : bool) -> (Vec<Value>, u
         scn.set_rules(&menu[0]);
         for (p, c) in &init { scn.edit(p, c); }
         let mut k = 0;
+        let mut crashed : Vec<Value> = vec![];
         while k < tr.len()
         {
             let e = &tr[k];
@@ -43,13 +44,23 @@ pub fn replay_file(path : &str, tag : &str, serial_ref : bool) -> (Vec<Value>, u
                 {
                     let mut picks = VecDeque::new();
                     while k < tr.len() && tr[k]["a"].as_str() == Some("pick") { picks.push_back(tr[k]["t"].as_str().unwrap().to_string()); k += 1; }
-                    let (o, _) = scn.invoke(a == "build", e["g"].as_str().unwrap_or(""), Sched::Scripted(picks), false);
-                    notenabled += o.flags.notenabled;
+                    if crash_last && k >= tr.len()
+                    {
+                        /* the last invocation of the behaviour is the one that gets killed, at every mutation */
+                        let id = format!("{}.{}", tag, n);
+                        let (sub, s) = crate::drv_random::crash_last(&mut scn, &id, a == "build", e["g"].as_str().unwrap_or(""), Sched::Scripted(picks), 40, json!({"replay" : tag}));
+                        crashed.extend(sub); nsnaps += s;
+                    }
+                    else
+                    {
+                        let (o, _) = scn.invoke(a == "build", e["g"].as_str().unwrap_or(""), Sched::Scripted(picks), false);
+                        notenabled += o.flags.notenabled;
+                    }
                 },
                 _ => {},
             }
         }
-        out.extend(scn.out);
+        if crash_last { out.extend(crashed); } else { out.extend(scn.out); }
     }
-    (out, n, notenabled)
+    (out, n, notenabled, nsnaps)
 }
